@@ -57,6 +57,25 @@ def trees(nconn):
     return memo[nconn]
 
 
+def spines():
+    """ORDERED three-branch spines ((x op y) op z) in which exactly one branch is a two-literal sub-tree of the
+    opposite connective, in every branch position (rules that treat the FIRST branch specially are order-sensitive,
+    which the commutative dedupe of trees() hides)."""
+    lits = [("lit", i, neg) for i in range(3) for neg in (False, True)]
+    out = []
+    for op, inner in (("or", "and"), ("and", "or")):
+        for i in range(len(lits)):
+            for j in range(i + 1, len(lits)):
+                sub = (inner, lits[i], lits[j])
+                for m1 in lits:
+                    for m2 in lits:
+                        for pos in range(3):
+                            br = [m1, m2]
+                            br.insert(pos, sub)
+                            out.append((op, (op, br[0], br[1]), br[2]))
+    return out
+
+
 def build_pred(t, x, atoms):
     if t[0] == "lit":
         a = atoms[t[1]](x)
@@ -157,6 +176,9 @@ PREDS = {
     "or_common": lambda y: ((y["a"] > 1) & (y["b"] < 4)) | ((y["a"] > 1) & (y["d"] == 1)),
     "a_gt_mean": lambda y: y["a"] > y["a"].mean(),
     "a_gt_d": lambda y: y["a"] > y["d"],
+    "h_gt1": lambda y: y["h"] > 1,                      # column whose values an astype truncated
+    "a_cumsum": lambda y: y["a"].cumsum() > 9,           # order/row-set dependent term in the predicate
+    "b_rank_like": lambda y: y["b"].cummax() >= 2.5,
     "a_gt_mean_plus": lambda y: y["a"] > y["a"].mean() + 0,
     "a_minus_mean": lambda y: y["a"] - y["a"].mean() > 0,
     "idx_gt": lambda y: y.index > 3,
@@ -177,15 +199,17 @@ CROSS = {
     "rename": (lambda x: x.rename(columns={"a": "A"}), None, True, True, ["A_gt", "b_ne", "c_isin"]),
     "add_prefix": (lambda x: x.add_prefix("p_"), None, True, True, ["pa_gt"]),
     "astype": (lambda x: x.astype({"a": "float64"}), None, True, True, ["a_gt2", "and_ab", "b_isna"]),
+    "astype_trunc": (lambda x: x.assign(h=x["a"] / 2).astype({"h": "int64"}), None, True, True, ["h_gt1", "a_gt2"]),
+    "filter_first": (lambda x: x[x["d"] == 1], None, True, True, ["a_cumsum", "b_rank_like", "a_gt2", "a_gt_mean"]),
     "fillna": (lambda x: x.fillna({"b": 0.0}), None, True, True, ["b_le", "b_ne", "b_isna", "and_ab"]),
     "abs": (lambda x: x[["a", "b", "d"]].abs(), None, True, True, ["a_gt2", "b_le", "not_b_gt"]),
     "reset_index": (lambda x: x.reset_index(), None, True, False, ["a_gt2", "index_col", "b_ne"]),
     "reset_index_drop": (lambda x: x.reset_index(drop=True), None, True, False, ["a_gt2", "b_isna"]),
     "to_frame": (lambda x: x["a"].to_frame(), None, True, True, ["a_gt2"]),
-    "sort_values": (lambda x: x.sort_values("u"), None, True, True, ["a_gt_mean_plus", "a_minus_mean", "a_gt2", "u_gt", "b_ne", "or_common", "a_gt_mean"]),
+    "sort_values": (lambda x: x.sort_values("u"), None, True, True, ["a_cumsum", "b_rank_like", "a_gt_mean_plus", "a_minus_mean", "a_gt2", "u_gt", "b_ne", "or_common", "a_gt_mean"]),
     "set_index": (lambda x: x.set_index("u"), lambda x: x.set_index("u").sort_index(), True, True, ["a_gt2", "idx_gt", "and_idx_a", "b_ne", "a_gt_mean"]),
     "shuffle": (lambda x: x.shuffle("a"), lambda x: x, False, True, ["a_gt2", "b_ne", "c_ne_x", "or_common"]),
-    "repartition": (lambda x: x.repartition(npartitions=2), lambda x: x, True, True, ["a_gt2", "b_ne", "a_gt_mean", "idx_gt"]),
+    "repartition": (lambda x: x.repartition(npartitions=2), lambda x: x, True, True, ["a_cumsum", "a_gt2", "b_ne", "a_gt_mean", "idx_gt"]),
     "concat": (lambda x: _concat([x, x]), None, True, True, ["a_gt2", "b_ne", "or_common"]),
     "dropna": (lambda x: x.dropna(subset=["b"]), None, True, True, ["a_gt2", "b_le"]),
     "cumsum": (lambda x: x[["a", "b", "d"]].cumsum(), None, True, True, ["a_gt2", "b_le"]),
@@ -410,6 +434,9 @@ def run(ctx):
                     if n == 3 and c != "proj":
                         continue
                     cases.append({"mode": "tree", "tree": s, "atoms": flavour, "ctx": c})
+    sp = spines()
+    for t in sp:
+        cases.append({"mode": "tree", "tree": tree_str(t), "atoms": "cmp", "ctx": "proj"})
     for op, (_, _, _, _, preds) in CROSS.items():
         for p in preds:
             for consumer in CONSUMERS:
@@ -422,10 +449,12 @@ def run(ctx):
                 for consumer in ("sole", "shared", "projected"):
                     cases.append({"mode": "join", "how": how, "pred": p, "suffixes": suff, "consumer": consumer})
     ctx.rule = (f"(a) ALL predicate trees with <= {maxconn} and/or connectives over the 6 literals of 3 atoms ({ntrees} trees after commutative dedupe), "
+                f"plus {len(sp)} ORDERED three-branch or/and spines with one two-literal branch of the opposite connective in every position; "
                 "3 atom flavours (comparisons; isin/isna/!=; column-vs-column, column-vs-reduction, notnull), evaluated on the table whose 27 rows are all "
                 "valuations {false, true, NULL}^3, under 4 consumer contexts; (b) every operator a filter can cross x predicates (untouched / created / renamed / "
                 "index columns, conjunctions, OR with common conjunct, reduction in predicate) x consumer pattern; (c) join kind x predicate side x suffixing x "
                 "sharing; oracle = pandas boolean indexing; non-trivial = the optimiser changed the plan")
+    cases = list({key(c): c for c in cases}.values())
     res = ctx.map(evaluate, cases, chunk=64)
     ctx.states = len(cases)
     ctx.transitions = len(cases)
@@ -435,6 +464,7 @@ def run(ctx):
     for c in (cases[10], cases[len(cases) // 2], cases[-1]):
         ctx.sample(key(c))
     ctx.cov["predicate_trees"] = ntrees
+    ctx.cov["ordered_spines"] = len(sp)
     ctx.cov["valuation_rows"] = len(TNULL)
     ctx.assumptions += ["reader-side filters (parquet) are decided in C18", "NULL = missing value in the compared column (pandas semantics: comparisons with NaN are False)"]
     return ctx.finish(evaluate, shrink, key)
